@@ -57,6 +57,8 @@ func checkIntComparator(c *Ctx, e *absExec, id string, fn *ssa.Function, li, ri 
 func runC16(c *Ctx) {
 	runC16ScratchReset(c)
 	runC16SortSubjects(c)
+	runC16PushOrder(c)
+	borrow(c, "O8", "C05", "O13", "", "a per-job table of the topology plugin that survives into the next job confines that job to the previous job's nodes: a higher-priority workload stays pending next to free nodes while an identical lower-priority one, attempted after a different predecessor, is placed")
 	borrow(c, "O6", "C08", "O5", "AllocatedNotPreemptible", "the non-preemptible quota gate must be monotone within a cycle: a deallocation that subtracts what the allocation never added lowers the queue's non-preemptible usage, so an earlier (higher-priority) workload is refused and an identical later one admitted")
 	p, fx := c.P, c.Fx
 	e := newAbsExec(p)
@@ -605,4 +607,52 @@ func runC16SortSubjects(c *Ctx) {
 		}
 	}
 	c.Floor("O7", "PROV sort.Slice calls in the scheduler", n, 5)
+}
+
+// runC16PushOrder (O9): in a depth-limited heap the new item takes part in the eviction decision. Push inserts the
+// item first and evicts the worst afterwards; evicting before inserting keeps whatever was pushed last, however bad.
+func runC16PushOrder(c *Ctx) {
+	push := c.Anchor("O9", "pkg/scheduler/scheduler_util", "PriorityQueue", "Push")
+	if push == nil {
+		return
+	}
+	isHeap := func(name string) func(ssa.Instruction) bool {
+		return func(in ssa.Instruction) bool {
+			cc, ok := in.(ssa.CallInstruction)
+			return ok && calleeOf(cc) != nil && funcPkgPath(calleeOf(cc)) == "container/heap" && calleeOf(cc).Name() == name
+		}
+	}
+	removes := instrsIn(push, isHeap("Remove"))
+	pushes := instrsIn(push, isHeap("Push"))
+	c.Floor("O9", "MPT heap.Push in Push", len(pushes), 1)
+	for _, rm := range removes {
+		_, path, found := reachAvoiding([]cfgPos{{B: push.Blocks[0], I: 0}}, func(in ssa.Instruction) bool { return in == rm }, isHeap("Push"), nil)
+		c.Check(!found, "O9", "MPT", funcKey(push)+": the new item is in the heap when the item to evict is chosen", instrPos(rm), "heap.Push precedes heap.Remove on every path",
+			"the eviction from a full heap is decided before the new item is inserted ("+pathStr(path)+"): the new item is kept whatever its rank, and a higher-priority or older job that was already in the heap is dropped in its place")
+	}
+	// every path through Push inserts the item
+	// (a path that is decided by comparing items — an early rejection of an item worse than everything kept — is
+	// not followed: whether that is right is a question about the comparison, which O4 covers)
+	lessM := c.P.Func("pkg/scheduler/scheduler_util", "priorityQueue", "Less")
+	byComparison := func(from, to *ssa.BasicBlock) bool {
+		iff, ok := from.Instrs[len(from.Instrs)-1].(*ssa.If)
+		if !ok {
+			return true
+		}
+		return !termOf(iff.Cond).contains(func(x *Term) bool {
+			if x.Op != "call" {
+				return false
+			}
+			if x.Fn == nil {
+				return strings.Contains(x.String(), "lessFn")
+			}
+			if lessM != nil && sameFunc(x.Fn, lessM) {
+				return true
+			}
+			_, r := c.P.Reaches(x.Fn, func(g *ssa.Function) bool { return lessM != nil && sameFunc(g, lessM) }, 3)
+			return r
+		})
+	}
+	_, path, found := reachAvoiding([]cfgPos{{B: push.Blocks[0], I: 0}}, isReturn, isHeap("Push"), byComparison)
+	c.Check(!found, "O9", "MPT", funcKey(push)+": every Push inserts the item", push.Pos(), "heap.Push on every path", "Push can return without inserting the item ("+pathStr(path)+")")
 }
